@@ -95,6 +95,9 @@ package stick
 // C12: the result is marked safe for every content type given
 //@   ensures safefor: forall i :: 0 <= i && i < len(types) ==> in(unbox(result, "safeValue").safeFor, types[i])
 //@   ensures plain: !isSafe(val) ==> sv_inner(result) == val
+// C12: ... and for nothing else: with no content type given, a plain value is safe for nothing
+//@   ensures none: len(types) == 0 && !isSafe(val) ==> (forall k:strkey :: !in(unbox(result, "safeValue").safeFor, k))
+//@   loop 1 invariant nokeys: rangeindex < len(types) && (rangeindex == 0 - 1 ==> (forall k:strkey :: !in(safeFor, k)))
 //@   ensures flat: isSafe(val) ==> sv_inner(result) == sv_inner(val)
 //@   loop 1 invariant safeFor != nil && rangeindex >= -1 && (forall i :: 0 <= i && i <= rangeindex ==> in(safeFor, types[i]))
 //@   loop 2 invariant safeFor != nil && (forall i :: 0 <= i && i < len(types) ==> in(safeFor, types[i]))
@@ -299,6 +302,9 @@ package stick
 //@   ensures comment: istype(node, "*parse.CommentNode") ==> err == nil && rbuflen(ref(old(s.out))) == old(rbuflen(ref(s.out)))
 // (the children of a body are walked by a plain range loop over node.All(): slice order, each once - code shape)
 //@   at "s.walk(c)" child: c != nil
+// C09: the parent template is loaded under the string form of the value of the extends expression (any value that
+// coerces to the name: a Stringer, a safe value)
+//@   at "s.env.load(name)" parent: name == strspec(tplName)
 // C06: an if node walks its body exactly when the condition is truthy, else its else-part
 //@   at "s.walk(node.Body)" then: truthspec(v) && istype(old(node), "*parse.IfNode") && node == unbox(old(node), "*parse.IfNode")
 //@   at "s.walk(node.Else)" otherwise: !truthspec(v) && node.Else != nil && istype(old(node), "*parse.IfNode") && node == unbox(old(node), "*parse.IfNode")
@@ -605,6 +611,7 @@ package stick
 //@   at "s.callMacro(macroDef{macro}, args...)" self: len(args) == len(exargs) && macro != nil
 //@   at "s.callMacro(macro, args...)" imported: len(args) == len(exargs) && istype(c, "macroSet")
 //@   at "errors.New(\"undefined macro: \" + CoerceString(k))" unknown: istype(c, "macroSet")
+//@   asserts@*parse.GetAttrExpr unknownerr: called("errors.New(\"undefined macro: \" + CoerceString(k))") ==> err != nil
 // C11: a name that is a macro of the receiver never falls through to the plain attribute lookup - whatever the
 // number of arguments (the three call forms agree)
 //@   at "GetAttr(c, k, args...)" notmacro: !istype(c, "macroSet") && !(istype(c, "selfValue") && in(s.localMacros, strspec(k)))
@@ -783,6 +790,9 @@ package stick
 //@   ensures others: forall p trig :: allocated(p) ==> fld("stick.scopeStack", "scopes", p) == old(fld("stick.scopeStack", "scopes", p))
 //@   trusts sep: forall p, i :: allocated(p) && 0 <= i && i < old(len(fld("stick.scopeStack", "scopes", p))) ==> fld("stick.scopeStack", "scopes", p)[i] == old(fld("stick.scopeStack", "scopes", p)[i])
 //@ func stick.(*Env).load
+// C03/C10: the loader is asked for exactly the name the template gave (no normalisation: an inline template's name is
+// its source)
+//@   at "env.Loader.Load(" asis: arg0 == old(name)
 //@   propagates
 //@   requires env.Loader != nil
 //@   ensures ok: err == nil ==> r0 != nil && r0.root != nil && len(r0.blocks) >= 1 && r0.macros != nil
@@ -833,6 +843,10 @@ package stick
 
 // C19: the built-in loaders hold no open file once Load has returned
 //@ func stick.(*FilesystemLoader).Load
+// C17: the file is opened and read now: a name that cannot be read is an error of Load, not an empty template later
+//@   asserts loaded: err == nil ==> called("os.Open(path)") && called("ioutil.ReadAll(f)")
+// C03: the template's reader is over exactly the bytes read (nothing stripped or re-encoded)
+//@   at "bytes.NewReader(" whole: arg0 == contents
 //@   ensures files: openfiles() == old(openfiles())
 //@   ensures ok: err == nil ==> r0 != nil
 
